@@ -277,7 +277,7 @@ def run_property(pid, tier_, bits, explore_kwargs, property_files, extra_python_
     return rep.finish()
 
 
-C01_FILES = ["Properties/C01.v", "Proofs/CollectRefine.v"]
+C01_FILES = ["Properties/C01.v", "Proofs/CollectRefine.v", "Proofs/ExecRefine.v"]
 
 
 def main(tier_, replay=None):
